@@ -53,13 +53,21 @@ class World(object):
 
     def site(self, kind, default):
         def cb(*a):
+            act = None
             if self.depth == 0 or self.plan_depth_ok():
                 self.count += 1
                 pl = self.plan
                 if pl and self.count in pl:
                     act = pl.pop(self.count)
                     self.check.rec.cov('interposition_sites', (kind, self.check.current_mode, self.check.current_depth))
-                    act()
+            if act is None:
+                return default(*a)
+            if self.check.setter_first:
+                # the listener hands its value to the setter (or computes its result) BEFORE the interposed evaluation runs
+                r = default(*a)
+                act()
+                return r
+            act()
             return default(*a)
         return cb
 
@@ -105,6 +113,7 @@ class Check(BaseCheck):
         self.rec = rec
         self.current_mode = '-'
         self.current_depth = 0
+        self.setter_first = False
         getattr(self, 'c_' + spec['campaign'])(spec, rec)
 
     # ------------------------------------------------------------------ formulas
@@ -153,6 +162,8 @@ class Check(BaseCheck):
     def one_nested(self, rec, A, B, C, f, g, h, j, mode, depth, soloA):
         inner = {}
         self.current_mode, self.current_depth = mode, depth
+        self.setter_first = (hash((f, j, mode, depth)) & 1) == 1
+        rec.cov('setter_order', self.setter_first)
 
         def target():
             if mode == 'other-parser':
@@ -199,6 +210,7 @@ class Check(BaseCheck):
     def multi_nested(self, rec, A, B, f, gs, sites, mode, soloA):
         inner = []
         self.current_mode, self.current_depth = 'multi:' + mode, 1
+        self.setter_first = (hash((f, tuple(sites), mode)) & 1) == 1
 
         def mk(g, k):
             def act():
@@ -252,6 +264,34 @@ class Check(BaseCheck):
                 o1, o2 = a.run('foo&tagv'), b.run('foo&tagv')
                 if o1 == o2:
                     rec.violation('C03/parsers-share-variable-values', a=a.tag, b=b.tag, outcome=o1)
+        # a custom function registered under a built-in name on ONE parser: that parser gets its own function, every other
+        # parser keeps the built-in, in whatever order they are used (sequentially and nested)
+        hotxlfp = env.load()
+        for name, args, builtin_value in (('MAX', '1,2', 2), ('MIN', '1,2', 1), ('SUM', '1,2', 3), ('ABS', '-3', 3), ('LEN', '"ab"', 2), ('PI', '', None)):
+            for first in ('builtin-first', 'custom-first', 'nested'):
+                A, B = hotxlfp.Parser(), hotxlfp.Parser()
+                f = '%s(%s)' % (name, args)
+                B.set_function(name, lambda *a, _n=name: 'mine:' + _n)
+                if first == 'builtin-first':
+                    ra, rb, ra2 = A.parse(f), B.parse(f), A.parse(f)
+                elif first == 'custom-first':
+                    rb, ra, ra2 = B.parse(f), A.parse(f), A.parse(f)
+                    rb = B.parse(f)
+                else:
+                    got = {}
+                    B.set_function('VIA', lambda *a: got.setdefault('a', A.parse(f)) and 0)
+                    rb = B.parse('(VIA()+0)&%s' % f)
+                    ra = got.get('a')
+                    ra2 = A.parse(f)
+                    rb = {'result': rb['result'][1:] if isinstance(rb['result'], str) else rb['result'], 'error': rb['error']}
+                rec.case()
+                rec.nt(('shadow', name, first))
+                okb = rb == {'result': 'mine:' + name, 'error': None}
+                oka = all(r is not None and r['error'] is None and (builtin_value is None or r['result'] == builtin_value) and r['result'] != 'mine:' + name for r in (ra, ra2))
+                if not okb:
+                    rec.violation('C03/custom-function-under-built-in-name-lost:' + first, name=name, order=first, own_parser=rb)
+                if not oka:
+                    rec.violation('C03/custom-function-of-one-parser-used-by-another:' + first, name=name, order=first, other_parser=[ra, ra2])
         rec.sample({'parsers': 5, 'formula': 'only_on_1 evaluated on parser 2'})
 
     # ------------------------------------------------------------------ threads
